@@ -380,6 +380,16 @@ func ruleErrResultUsed() check.Rule {
 					if inTeardownLit(m, sc, call) {
 						return true
 					}
+					// console output (prompt, diagnostics) is not the lifted function
+					if sel, ok := ast.Unparen(call.Fun).(*ast.SelectorExpr); ok {
+						if inner, ok := ast.Unparen(sel.X).(*ast.SelectorExpr); ok {
+							if v, ok := info.Uses[inner.Sel].(*types.Var); ok && v.Pkg() != nil && v.Pkg().Path() == "os" && (v.Name() == "Stdout" || v.Name() == "Stderr") {
+								if shortCallee(info, call) != "Write" || v.Name() == "Stderr" || isDiscardedLog(m, sc, call) {
+									return true
+								}
+							}
+						}
+					}
 					n++
 					c.Inc("error_returning_calls", 1)
 					key := fmt.Sprintf("%s/err-call#%d-%s", sc, n, shortCallee(info, call))
@@ -513,10 +523,14 @@ func errorHandled(m *model.Model, sc *model.SC, call *ast.CallExpr, errIdx, nres
 		// the branch emits Error with errVar (or something containing it) / returns it
 		emits, emitsNext := false, false
 		returns := false
+		var errorPos token.Pos
 		ast.Inspect(branch, func(x ast.Node) bool {
 			switch y := x.(type) {
 			case *ast.CallExpr:
 				name := shortCallee(info, y)
+				if strings.HasPrefix(name, "Error") && errorPos == token.NoPos {
+					errorPos = y.Pos()
+				}
 				if strings.HasPrefix(name, "Error") {
 					for _, a := range y.Args {
 						ast.Inspect(a, func(z ast.Node) bool {
@@ -527,8 +541,8 @@ func errorHandled(m *model.Model, sc *model.SC, call *ast.CallExpr, errIdx, nres
 						})
 					}
 				}
-				if strings.HasPrefix(name, "Next") {
-					emitsNext = true
+				if strings.HasPrefix(name, "Next") && (errorPos != token.NoPos && y.Pos() > errorPos) {
+					emitsNext = true // a value after the Error notification
 				}
 			case *ast.ReturnStmt:
 				returns = true
@@ -896,4 +910,18 @@ func (us *userSupplied) litCallsUser(p *packages.Package, lit *ast.FuncLit, dept
 		return true
 	})
 	return found
+}
+
+// isDiscardedLog: the call's results are all assigned to blanks (explicit best-effort output).
+func isDiscardedLog(m *model.Model, sc *model.SC, call *ast.CallExpr) bool {
+	as, ok := m.Parent(sc.Pkg, call).(*ast.AssignStmt)
+	if !ok {
+		return false
+	}
+	for _, l := range as.Lhs {
+		if id, ok := l.(*ast.Ident); !ok || id.Name != "_" {
+			return false
+		}
+	}
+	return true
 }
